@@ -214,7 +214,7 @@ func vconfig(prefix string) Config {
 		SkipListMaxLevel:       2,
 		SkipListP:              0.5,
 		MemtableByteThreshold:  vf.Int(prefix+"memThr", 1, 120),
-		ImmutableBuffer:        vf.Choose(prefix+"ib", 0, vf.Param("IBMAX", 1)),
+		ImmutableBuffer:        vf.Choose(prefix+"ib", vf.Param("IBMIN", 0), vf.Param("IBMAX", 1)),
 		DataBlockByteThreshold: []int{1, 40}[vf.Choose(prefix+"blk", 0, vf.Param("BLKMAX", 1))], // one entry per block / one block (arbitrary partitions: C10)
 		L0TargetNum:            vf.Choose(prefix+"l0", vf.Param("L0MIN", 1), vf.Param("L0MAX", 1)),
 		LevelRatio:             vf.Choose(prefix+"ratio", 1, vf.Param("RATIOMAX", 1)),
